@@ -258,6 +258,20 @@ PROPS = {
         level_note='No obligation proved. Contract precondition: wire values are not tuples and a box returns a bare value for one '
                    'output, a tuple of length cod otherwise; tuple-valued wires (F13) are outside it.',
         technique='bounded run-time contracts against an independent wire-list evaluator'),
+    'C20': dict(
+        title='The drawing layout is a faithful planar embedding of the diagram',
+        level='exploration',
+        vc=[], sym=[], rtc='C20',
+        level_text='Bounded stand-in: for every diagram with <= 3 (thorough 4) boxes over 14 box kinds of arity 0..3 -> 0..4 '
+                   '(scalars, states, effects, a 4-wire state) on 0..3 input wires, the graph and coordinates of diagram2nx are '
+                   'replayed against the diagram\'s own scan: exactly one node per input, output, box and port with a position; '
+                   'the edge set is the wiring; open wires strictly increasing in x before and after every box; wires into ports '
+                   'and outputs vertical (also in the final layout, after later shifts); every edge downwards; every box extent '
+                   'strictly between its neighbouring wires. A sample is rendered on both back-ends (Agg, TikZ). Five diagramize '
+                   'bodies (planar, wires used out of left-to-right order) against the expected wiring.',
+        level_note='No obligation proved: the linear-real-arithmetic invariants of DESIGN 6/C20 are not discharged in this build. '
+                   'matplotlib / TikZ emission and networkx are external.',
+        technique='bounded run-time contracts replaying the layout against the diagram wiring'),
     'C05': dict(
         title='Interchange moves exactly one box past a disconnected neighbour',
         level='proof',
